@@ -133,13 +133,17 @@ CapBad(api) == buf.form = "vec" /\ ~Borrowing(api) /\ buf.cap % buf.n # 0
 
 (* try_from_component_slice(_mut), try_from_component_slice_box, try_from_component_vec;
    TryFromComponents / TryComponentsInto / TryComponentsAs(Mut): the error step hands the buffer back
-   unchanged; length mismatch is reported before capacity mismatch *)
-TryFromComponent(api, m) ==
+   unchanged.  The statement says WHEN a buffer is rejected, not which of the two reasons is named when both
+   apply: the reported kind k must be a true one (LENGTH only if the length is bad, CAPACITY only if the capacity
+   is), the precedence between them is the implementation's choice. *)
+TryFromComponentK(api, m, k) ==
   /\ fam = "arr" /\ buf.unit = "component" /\ buf.form \in (Multi \ {"array"}) /\ Style(api, m)
-  /\ IF LenBad THEN buf' = buf /\ Done("try_from_component", api, LENGTH)
-     ELSE IF CapBad(api) THEN buf' = buf /\ Done("try_from_component", api, CAPACITY)
+  /\ IF LenBad \/ CapBad(api)
+     THEN /\ k \in {LENGTH, CAPACITY} /\ (k = LENGTH => LenBad) /\ (k = CAPACITY => CapBad(api))
+          /\ buf' = buf /\ Done("try_from_component", api, k)
      ELSE /\ buf' = Reshape("colour", buf.len \div buf.n, buf.cap \div buf.n, api, m)
           /\ Done("try_from_component", api, OK)
+TryFromComponent(api, m) == \E k \in {LENGTH, CAPACITY} : TryFromComponentK(api, m, k)
 
 (* from_component_array, from_component_slice(_mut), from_component_slice_box, from_component_vec;
    FromComponents / ComponentsInto / ComponentsAs(Mut): same, but a rejected buffer is a panic, which
@@ -280,7 +284,8 @@ OwnedVec(r) == r.pre.form = "vec" /\ ~Borrowing(r.api)
 RejectExact ==
   /\ ret.op \in FromComponentOps =>
        /\ ret.err # OK <=> (ret.pre.len % ret.pre.n # 0 \/ (OwnedVec(ret) /\ ret.pre.cap % ret.pre.n # 0))
-       /\ ret.err = CAPACITY => ret.pre.len % ret.pre.n = 0
+       /\ ret.err = CAPACITY => (OwnedVec(ret) /\ ret.pre.cap % ret.pre.n # 0)      \* a named reason is a true one
+       /\ ret.err = LENGTH => ret.pre.len % ret.pre.n # 0
        /\ ret.err \in {LENGTH, CAPACITY} => buf = ret.pre
        /\ ret.err \in {OK, PANIC} \/ ret.op = "try_from_component"
   /\ ret.op = "try_slice_as_ref" =>
